@@ -274,7 +274,24 @@ fn run_stop(mode: Mode, scenario: &str, param: u64) -> (String, String, String, 
     // traffic while the listener runs
     let traffic_stop = Arc::new(AtomicBool::new(false));
     let mut hs = vec![];
-    if scenario != "before" {
+    // storm: no signal is ever delivered, but timers far in the future are created and cancelled
+    // every 2 ms until after the listener has (or should have) returned: the signal thread's
+    // receive_timeout() keeps being woken by timer commands
+    let storm_stop = Arc::new(AtomicBool::new(false));
+    let storm = if scenario == "storm" {
+        let (hh, sf) = (handler.clone(), storm_stop.clone());
+        Some(std::thread::spawn(move || {
+            while !sf.load(Ordering::Relaxed) {
+                let id = hh.signals().send_with_timer(77, Duration::from_secs(3600));
+                std::thread::sleep(Duration::from_millis(1 + param % 3));
+                hh.signals().cancel_timer(id);
+            }
+        }))
+    }
+    else {
+        None
+    };
+    if scenario != "before" && scenario != "storm" {
         for p in 0..2u8 {
             let sf = traffic_stop.clone();
             hs.push(std::thread::spawn(move || {
@@ -298,7 +315,7 @@ fn run_stop(mode: Mode, scenario: &str, param: u64) -> (String, String, String, 
             }
         }));
     }
-    if scenario == "external" {
+    if scenario == "external" || scenario == "storm" {
         std::thread::sleep(Duration::from_millis(20 + param * 7));
         handler.stop();
     }
@@ -314,6 +331,10 @@ fn run_stop(mode: Mode, scenario: &str, param: u64) -> (String, String, String, 
     }
     let was_running = handler.is_running();
     let returned = finish(running, Duration::from_millis(1500));
+    storm_stop.store(true, Ordering::Relaxed);
+    if let Some(h) = storm {
+        let _ = h.join();
+    }
     drop(peers);
     let after_n = after.load(Ordering::SeqCst);
     let case = format!("node stop {} {} {}", mode.name(), scenario, param);
@@ -326,7 +347,7 @@ fn run_stop(mode: Mode, scenario: &str, param: u64) -> (String, String, String, 
         case,
         format!("after={} returned={} running={}", after_effective, returned.is_some(), was_running),
         if ok { "ok".into() } else { format!("FAIL invocations after stop()={} listener returned={:?} is_running={}", after_n, returned, was_running) },
-        format!("stop,{},{}{}", mode.name(), scenario, if total.load(Ordering::SeqCst) > 0 { ",invoked" } else { "" }),
+        format!("stop,{},{}{}", mode.name(), scenario, if total.load(Ordering::SeqCst) > 0 || scenario == "storm" { ",invoked" } else { "" }),
     )
 }
 
@@ -432,9 +453,9 @@ fn main() {
         "gen-stop" => {
             let thorough = arg(2) == "thorough";
             for m in modes {
-                let mut list: Vec<(&str, u64)> = vec![("before", 0), ("before", 1), ("before", 3), ("innet", 0), ("innet", 2), ("insig", 0), ("insig", 3), ("contended", 0), ("replay", 5), ("external", 1)];
+                let mut list: Vec<(&str, u64)> = vec![("before", 0), ("before", 1), ("before", 3), ("innet", 0), ("innet", 2), ("insig", 0), ("insig", 3), ("contended", 0), ("replay", 5), ("external", 1), ("storm", 0)];
                 if thorough {
-                    list.extend([("innet", 1), ("innet", 5), ("insig", 1), ("insig", 7), ("replay", 3), ("replay", 9), ("external", 0), ("external", 3), ("external", 6), ("contended", 1)]);
+                    list.extend([("innet", 1), ("innet", 5), ("insig", 1), ("insig", 7), ("replay", 3), ("replay", 9), ("external", 0), ("external", 3), ("external", 6), ("contended", 1), ("storm", 1), ("storm", 2)]);
                 }
                 for (sc, p) in list {
                     let (c, i, o, t) = run_stop(m, sc, p);
